@@ -66,6 +66,8 @@ pub enum Op {
     /// wrap_iter over `.0` items consumed by for_each / fold: inside the closure the position already
     /// counts the item it is handed
     IterForEach(u8),
+    /// wrap_iter(..).with_position(p) on the bar as it stands: the position is p from then on, then the items count
+    IterWithPosition(u64, u8),
 }
 
 #[derive(Debug, Clone, Serialize, Deserialize)]
@@ -114,6 +116,7 @@ fn op_strategy() -> BoxedStrategy<Op> {
         1 => (0u8..30, 0u8..30).prop_map(|(a, b)| Op::WriteAllFailing(a, b)),
         1 => (0u8..9, 0u8..4).prop_map(|(items, k)| Op::IterNth { items, k }),
         1 => (0u8..6).prop_map(Op::IterForEach),
+        1 => (special_u64(), 0u8..6).prop_map(|(p, n)| Op::IterWithPosition(p, n)),
         2 => (0u8..6, proptest::option::weighted(0.4, 0u8..6), 0u8..3).prop_map(|(items, abandon_at, extra)| Op::IterDrain { items, abandon_at, extra }),
     ]
     .boxed()
@@ -240,6 +243,11 @@ fn run_hist(c: &HistCase) -> CaseResult {
                 let want: Vec<u64> = (1..=*items as u64).collect();
                 assert_eq!(*seen.borrow(), want, "positions seen from inside for_each, relative to the start");
             }
+            Op::IterWithPosition(p, items) => {
+                let it = pb.wrap_iter(0..*items).with_position(*p);
+                assert_eq!(pb.position(), *p, "position() right after ProgressBarIter::with_position({p})");
+                it.for_each(drop);
+            }
             Op::IterDrain { items, abandon_at, extra } => {
                 let mut it = pb.wrap_iter(0..*items);
                 let mut j = 0u8;
@@ -268,7 +276,10 @@ fn run_hist(c: &HistCase) -> CaseResult {
             Op::SeekCurrentZero(k) => pos = *k as u64,
             Op::ReadToString(_, n) | Op::AsyncReadPrefilled(_, n) => pos = pos.wrapping_add(*n as u64),
             Op::WriteAllFailing(n, accept) => pos = pos.wrapping_add((*n).min(*accept) as u64),
-            Op::IterNth { items, .. } | Op::IterForEach(items) => {
+            Op::IterNth { items, .. } | Op::IterForEach(items) | Op::IterWithPosition(_, items) => {
+                if let Op::IterWithPosition(p, _) = op {
+                    pos = *p;
+                }
                 pos = pos.wrapping_add(*items as u64);
                 if !finished {
                     finished = true;
@@ -330,7 +341,7 @@ fn run_hist(c: &HistCase) -> CaseResult {
         }
         let (gp, gl) = catch(|| (pb.position(), pb.length())).map_err(|p| Fail::new("panic", format!("getter panicked after op #{i} {op:?}: {p}")))?;
         let kind = match op {
-            Op::Finish | Op::FinishWithMessage | Op::FinishAndClear | Op::FinishUsingStyle | Op::Abandon | Op::AbandonWithMessage | Op::IterDrain { .. } | Op::IterNth { .. } | Op::IterForEach(_) => "position_finish",
+            Op::Finish | Op::FinishWithMessage | Op::FinishAndClear | Op::FinishUsingStyle | Op::Abandon | Op::AbandonWithMessage | Op::IterDrain { .. } | Op::IterNth { .. } | Op::IterForEach(_) | Op::IterWithPosition(..) => "position_finish",
             _ => "position",
         };
         ensure!(gp == pos, kind, "after op #{i} {op:?}: position() = {gp}, history defines {pos} (ops {:?})", &c.ops[..=i]);
@@ -427,14 +438,20 @@ pub struct ConcCase {
     /// `any`): every item the adaptor hands on is one increment, items never taken are none
     #[serde(default)]
     rayon_find: u16,
+    /// the bar starts at its length, so that concurrent inc and dec calls keep crossing it while the reader
+    /// looks at the completed fraction
+    #[serde(default)]
+    cross: bool,
 }
 
 fn run_conc(c: &ConcCase) -> CaseResult {
     let vt = VTerm::raw(50, 80);
     let target = if c.visible { ProgressDrawTarget::term_like(vt.boxed()) } else { ProgressDrawTarget::hidden() };
     const LEN0: u64 = 1 << 40;
-    let pb = ProgressBar::with_draw_target(Some(LEN0), target).with_position(c.start);
-    let mut expect = c.start;
+    let start = if c.cross { LEN0 } else { c.start };
+    let pb = ProgressBar::with_draw_target(Some(LEN0), target).with_position(start);
+    let mut expect = start;
+    let bad_fraction = std::sync::atomic::AtomicU32::new(0);
     let mut expect_len = LEN0;
     for t in &c.threads {
         for i in 0..t.n_ops as usize {
@@ -485,10 +502,17 @@ fn run_conc(c: &ConcCase) -> CaseResult {
             if c.reader {
                 let pbr = &pb;
                 let stop = &stop;
+                let bad = &bad_fraction;
                 s.spawn(move || {
                     while !stop.load(Ordering::Relaxed) {
                         pbr.tick();
                         let _ = pbr.position();
+                        // the completed fraction as a caller sees it (update closure = what a custom key is handed)
+                        let mut f = 0f32;
+                        pbr.update(|st| f = st.fraction());
+                        if !(0.0..=1.0).contains(&f) {
+                            bad.store(f.to_bits().max(1), Ordering::Relaxed);
+                        }
                         std::thread::yield_now();
                     }
                 });
@@ -501,6 +525,8 @@ fn run_conc(c: &ConcCase) -> CaseResult {
     });
     stop.store(true, Ordering::Relaxed);
     r.map_err(|p| Fail::new("panic", format!("concurrent inc/dec panicked: {p}")))?;
+    let bad = bad_fraction.load(Ordering::Relaxed);
+    ensure!(bad == 0, "fraction", "while {} threads moved the position across the length, fraction() returned {} (outside [0,1])", c.threads.len(), f32::from_bits(bad));
     if c.rayon_rev > 0 {
         use indicatif::ParallelProgressIterator;
         use rayon::prelude::*;
@@ -555,6 +581,7 @@ fn run_conc(c: &ConcCase) -> CaseResult {
     v.label_if(c.reader, "concurrent_reader");
     v.label_if(c.rayon_rev > 0, "rayon_pipeline_driven_from_the_back");
     v.label_if(c.rayon_find > 1, "rayon_pipeline_that_stops_early");
+    v.label_if(c.cross && c.reader && c.threads.iter().any(|t| t.dec_mask != 0) && c.threads.iter().any(|t| t.dec_mask != u64::MAX), "fraction_read_while_the_position_crosses_the_length");
     v.label_if(c.threads.iter().filter(|t| t.len_ops).count() >= 2, "concurrent_length_adjustments");
     Ok(v)
 }
@@ -570,7 +597,7 @@ fn conc_strategy(tier: Tier) -> BoxedStrategy<ConcCase> {
     )
         .prop_map(|(n_ops, deltas, dec_mask, clone, len_ops)| ThreadPlan { n_ops, deltas, dec_mask, clone, len_ops });
     (special_u64(), proptest::collection::vec(plan, 1..=16), any::<bool>(), any::<bool>(), prop_oneof![1 => Just(0u16), 1 => 1u16..3000], prop_oneof![1 => Just(0u16), 1 => 1u16..3000])
-        .prop_map(|(start, threads, visible, reader, rayon_rev, rayon_find)| ConcCase { start, threads, visible, reader, rayon_rev, rayon_find })
+        .prop_map(|(start, threads, visible, reader, rayon_rev, rayon_find)| ConcCase { cross: reader && start % 2 == 1, start, threads, visible, reader, rayon_rev, rayon_find })
         .boxed()
 }
 
@@ -642,7 +669,7 @@ pub fn property() -> Property {
                 cases: |t| t.pick(60, 1_500),
                 run: run_conc,
                 signature: no_signature,
-                essential: &["two_or_more_threads", "inc_and_dec_mixed", "clones", "concurrent_reader", "concurrent_length_adjustments", "rayon_pipeline_driven_from_the_back", "rayon_pipeline_that_stops_early"],
+                essential: &["two_or_more_threads", "inc_and_dec_mixed", "clones", "concurrent_reader", "concurrent_length_adjustments", "rayon_pipeline_driven_from_the_back", "rayon_pipeline_that_stops_early", "fraction_read_while_the_position_crosses_the_length"],
                 workers: 2,
                 decode: None,
             }),
